@@ -97,7 +97,7 @@ C09Trees(withE, odd) ==
        ELSE IF p = "e/a" THEN (IF e = 2 THEN C09File(p) ELSE Absent)
        ELSE Absent] :
      tops \in SUBSET C09Top, hasD \in BOOLEAN, dsub \in SUBSET C09Sub, e \in (IF withE /\ "e" \in Paths THEN (IF "e/a" \in Paths THEN 0..2 ELSE 0..1) ELSE {0}) }
-C09Modes == IF "c" \in Paths THEN { <<TRUE, 0>>, <<TRUE, 1>>, <<TRUE, 2>>, <<FALSE, 0>> }      \* <<--delete, sender io-error word>>
+C09Modes == IF "e/a" \in Paths THEN { <<TRUE, 0>>, <<TRUE, 1>>, <<TRUE, 2>>, <<FALSE, 0>> }      \* <<--delete, sender io-error word>>
             ELSE { <<TRUE, 0>>, <<TRUE, 2>>, <<FALSE, 0>> }
 (* the user's exclude rule for "a" (a name at two depths): the sender does not list it, and a deleting receiver *)
 (* must leave it - and go on deleting what sorts after it                                                     *)
